@@ -303,6 +303,24 @@ def run(repo, root, log, tag=None):
     use_pinned = {}
     preamble, lemmas = parse_lemmas(tie_v)
     t_start = time.time()
+    # decisions of an earlier run on exactly the same source text, tie file and pinned fragments are reused, so a
+    # rewritten function costs its rebuild + sampling once, not on every check
+    import hashlib
+    cache_path = os.path.join(coq, "Generated", "srcfun_decisions.json")
+    txt0 = rustfun.generate(repo, root, {})[0]
+    key = hashlib.sha256((txt0 + "\0" + open(tie_v).read() + "\0" + open(rustfun.PINNED_PATH).read()).encode()).hexdigest()
+    cached = None
+    try:
+        c = json.load(open(cache_path))
+        if c.get("key") == key:
+            cached = c
+    except (OSError, ValueError):
+        pass
+    if cached:
+        use_pinned = dict(cached["use_pinned"])
+        for k in ("unproved_no_difference", "broken"):
+            res[k] = cached["res"][k]
+        res["reused_decisions"] = True
     for rnd in range(12):
         res["rounds"] = rnd + 1
         txt, report, order, texts = rustfun.generate(repo, root, use_pinned)
@@ -369,6 +387,11 @@ def run(repo, root, log, tag=None):
     res["translated"] = [n for n in report["translated"]]
     res["tied_by_proof"] = [n for n in report["translated"] if report["functions"][n]["target"]] if res["ok"] else []
     res["seconds"] = round(time.time() - t_start, 2)
+    if res["ok"] and not cached:
+        try:
+            json.dump({"key": key, "use_pinned": use_pinned, "res": {k: res[k] for k in ("unproved_no_difference", "broken")}}, open(cache_path, "w"))
+        except OSError:
+            pass
     return res
 
 
